@@ -51,6 +51,7 @@ fn families(t: Tier) -> Vec<(&'static str, u64)> {
         ("topo", 3 * (T1 + T2 + T3 + t.n(0, T4))),
         ("rand", t.n(15_000, 400_000)),
         ("mixed", t.n(15_000, 400_000)),
+        ("toggles", t.n(12_000, 300_000)),
         ("selfchain", t.n(204, 2_040)),
         ("diamond", t.n(300, 6_000)),
         ("fanin", t.n(300, 6_000)),
@@ -120,6 +121,30 @@ fn gen(ctx: &Ctx, fam: &str, k: u64, r: &mut Rng) -> Program {
             cfg.max_ops = 12;
             cfg.conv = false;
             gen_program(r, &cfg)
+        }
+        "toggles" => {
+            // user-defined nodes consumed through tracked and untracked handles in one graph (stop/start_tracking around
+            // single uses, untracked() results): an untracked consumer neither counts nor contributes
+            let mut cfg = GenCfg::exact();
+            cfg.all_custom = r.chance(1, 2);
+            cfg.uniform_shape = true;
+            cfg.unit_values = r.chance(1, 2);
+            cfg.max_rank = 2;
+            cfg.min_ops = 3;
+            cfg.max_ops = 14;
+            cfg.conv = false;
+            cfg.toggles = true;
+            cfg.untracked_eighths = 1;
+            let mut p = gen_program(r, &cfg);
+            let root = p.root();
+            for i in [root, p.base(root)] {
+                if let Node::Op { post, .. } = &mut p.nodes[i] {
+                    if *post == Some(false) {
+                        *post = None;
+                    }
+                }
+            }
+            p
         }
         "selfchain" => {
             let depth = 10 + (k % 51) as usize;
@@ -223,7 +248,7 @@ pub fn run_case(ctx: &mut Ctx, fam: &str, k: u64, r: &mut Rng) {
     let seedv = seed.values(numel(&od));
     let reach = reachable_from(&p, root);
     // expected invocations: reachable operation nodes that recorded at least one tracked operand
-    let flags = &rr.flags_at_creation;
+    let fau = flags_at_use(&p);
     let mut expect_call = vec![false; p.nodes.len()];
     let mut consumers_in_graph = vec![0usize; p.nodes.len()];
     for (i, n) in p.nodes.iter().enumerate() {
@@ -231,13 +256,12 @@ pub fn run_case(ctx: &mut Ctx, fam: &str, k: u64, r: &mut Rng) {
             if kind.is_alias() {
                 continue;
             }
-            // no toggles in these programs: a handle's flag at use time is its flag at creation
-            let any_tracked = args.iter().any(|a| flags[*a]);
+            let any_tracked = fau[i].iter().any(|t| *t);
             if reach[i] && any_tracked {
                 // only user-defined nodes are observable at the API boundary
                 expect_call[i] = kind.is_custom();
-                for a in args {
-                    if flags[*a] {
+                for (a, t) in args.iter().zip(&fau[i]) {
+                    if *t {
                         consumers_in_graph[p.base(*a)] += 1;
                     }
                 }
@@ -311,9 +335,9 @@ pub fn run_case(ctx: &mut Ctx, fam: &str, k: u64, r: &mut Rng) {
             continue;
         }
         if let Node::Op { args, .. } = n {
-            for a in args {
+            for (a, t) in args.iter().zip(&fau[i]) {
                 let b = p.base(*a);
-                if flags[*a] && expect_call[b] && pos[&i] > pos[&b] {
+                if *t && expect_call[b] && pos[&i] > pos[&b] {
                     ctx.violation(
                         &format!("C11|{}|invoked-before-consumer", fam),
                         format!("closure of n{} ran before its consumer n{} had contributed\nprogram: {}", b, i, p.pretty()),
